@@ -10,6 +10,7 @@ import (
 	"os/exec"
 	"sort"
 	"strings"
+	"time"
 
 	"github.com/go-spatial/geom"
 	"github.com/pdok/texel/intgeom"
@@ -231,7 +232,7 @@ func checkC03(e *env) {
 func checkC06(e *env) {
 	r := e.res
 	r.Rule = snapRule + " C06 uses arbitrary vertex sequences (85 %) and valid polygons, up to 60 vertices per ring, 1-3 rings; plus function-level streams: kmp (kmpDeduplicate on adversarially repetitive rings over small alphabets, " +
-		"exhaustive over all rings of length <= 7 over a 4-point alphabet in the thorough tier) and split (cleanupNewRing with arbitrary flag sets); every call under recover and a 20 s watchdog; " +
+		"exhaustive over all rings of length <= 7 over a 4-point alphabet in the thorough tier) and split (cleanupNewRing with arbitrary flag sets); every call under recover and a 20 s watchdog; scaling: rings of 200..1600 vertices of two adversarial kinds, the time may grow at most 24x per doubling; " +
 		"levels above 32 (WebMercatorQuad id >= 21) are probed separately and are the known finding F7."
 	initWindows()
 	e.runSnap(snapOpts{stream: "snap", n: e.n(15000, 800000), gen: e.anyGen(allWindows(), 60, 15), hook: func(c *snapCase, sr *snapResult, _ map[uint][]ring) {
@@ -246,6 +247,51 @@ func checkC06(e *env) {
 			e.res.Dist["c06:max-ms-per-call"] = int(ms)
 		}
 	}})
+	// "within time proportional to a small polynomial of the vertex count": rings of 200, 400, 800 and 1600 vertices of two adversarial kinds
+	// (random points over 100 x 100 pixels: everything crosses everything; few pixels visited over and over), the fastest of three runs each;
+	// doubling the vertex count may multiply the time by at most 24 (degree 4.5; measured on the unchanged code: 5 to 6, i.e. about n^2.5)
+	rdw := realWindows[1]
+	for _, kind := range []string{"random", "few-pixels"} {
+		var prev time.Duration
+		for _, n := range []int{200, 400, 800, 1600} {
+			pix := pixelSize(rdw.gs, rdw.maxID)
+			rg := make([][2]float64, n)
+			for i := range rg {
+				if kind == "random" {
+					rg[i] = [2]float64{rdw.baseX + e.rng.Float64()*100*pix, rdw.baseY + e.rng.Float64()*100*pix}
+				} else {
+					rg[i] = [2]float64{rdw.baseX + float64(e.rng.Intn(4))*pix, rdw.baseY + float64(e.rng.Intn(4))*pix}
+				}
+			}
+			c := &snapCase{gs: rdw.gs, tmids: []int{rdw.maxID, rdw.maxID - 2}, tag: "scaling-" + kind, skipModel: true}
+			c.cfg.KeepPointsAndLines = true
+			c.setPoly(geom.Polygon{rg})
+			best := time.Duration(0)
+			bad := false
+			for rep := 0; rep < 3 && !bad; rep++ {
+				sr := c.runImpl()
+				r.count("scaling", fmt.Sprintf("scaling %s n=%d", kind, n), true)
+				if sr.hang {
+					e.snapViolation("returns-within-the-watchdog", c, sr, fmt.Sprintf("%d vertices: no return after %v", n, hangLimit), "")
+					bad = true
+				} else if sr.panicMsg != "" {
+					e.snapViolation("no-panic-for-in-grid-polygon", c, sr, sr.panicMsg, "")
+					bad = true
+				} else if best == 0 || sr.elapsed < best {
+					best = sr.elapsed
+				}
+			}
+			if bad {
+				break
+			}
+			r.Dist[fmt.Sprintf("c06:scaling-%s-%d-vertices-ms", kind, n)] = int(best.Milliseconds())
+			if floor := 2 * time.Millisecond; prev > 0 && best > 24*max(prev, floor) {
+				r.violation(Violation{Oracle: "time-polynomial-in-the-vertex-count", Op: fmt.Sprintf("%s ring of %d vertices on %s ids %v", kind, n, rdw.gs.name, c.tmids), Impl: fmt.Sprintf("%v (fastest of three runs)", best),
+					Detail: fmt.Sprintf("the ring of half as many vertices took %v: the time grew by more than 24x for a doubling of the vertex count", prev)})
+			}
+			prev = best
+		}
+	}
 	// function level: kmpDeduplicate / cleanupNewRing
 	alpha := []ipt{{0, 0}, {1, 0}, {2, 0}, {1, 1}, {0, 1}, {3, 0}}
 	kmpCase := func(rg ring) {
